@@ -50,6 +50,7 @@ def jobs(tier):
     for i in range(0, len(betas), chunk):
         js.append({"name": f"towers-{i // chunk}", "kind": "towers", "betas": betas[i:i + chunk]})
     js.append({"name": "atoms-through-towers", "kind": "tower_atoms"})
+    js.append({"name": "tower-callsites", "kind": "tower_callsites"})
     return js
 
 
@@ -260,6 +261,129 @@ def tower_atoms():
     return out
 
 
+# ---------------------------------------------------------------------------------- call-site contracts of the towers
+
+def tower_callsites():
+    """socp.Model.do_math must hand every p-norm / power / geometric-mean constraint to IPCone with the operands
+    the mathematics requires (the callee's own contract -- emitted cones <=> left^deg <= prod right^beta -- is
+    proved above); the accompanying linear rows are checked as implications at an arbitrary vector."""
+    from ..harness import socp as socp_mod
+    from ..spec import dual as D
+    from ..sym import ctx, p_implies
+    out = []
+
+    def make(kind):
+        def setup(c):
+            m = ro.Model()
+            x = m.dvar(2)
+            a = sym_array(c, (2,), "ina")
+            b = sym_array(c, (2,), "inb")
+            for v in a:
+                c.assume(v != 0)
+            e = a * x + b
+            k = c.fresh_real("k")
+            c.assume(k > 0)
+            d = c.fresh_real("d")
+            c.assume(d != 0)
+            t = d * x[0] + c.fresh_real("e")
+            m.min(x.sum())
+            if kind == "pnorm3":
+                con, beta, scaled = k * rsome.pnorm(e, 3) <= t, [1, 2], True
+            elif kind == "pnorm(5,2)":
+                con, beta, scaled = k * rsome.pnorm(e, (5, 2)) <= t, [2, 3], True
+            elif kind == "power3":
+                con, beta, scaled = k * rsome.power(e, 3) <= t, [1, 2], False
+            elif kind == "power(5,2)":
+                con, beta, scaled = k * rsome.power(e, 5, 2) <= t, [2, 3], False
+            else:
+                con, beta, scaled = k * rsome.gmean(e, [1, 2]) >= t, [1, 2], False
+            m.st(con)
+            calls = []
+            real = socp_mod.IPCone
+
+            class Rec(real):
+                def __init__(self, xx, rr, bb):
+                    calls.append((xx, rr, list(bb)))
+                    super().__init__(xx, rr, bb)
+            socp_mod.IPCone = Rec
+            try:
+                F = m.do_math()
+            finally:
+                socp_mod.IPCone = real
+            return {"m": m, "x": x, "F": F, "calls": calls, "a": a, "b": b, "k": k, "t": (d, t), "beta": beta, "scaled": scaled, "kind": kind,
+                    "tval": lambda X, d=d, t=t: views.flat(views.val(t, X))[0]}
+        return setup
+
+    def operands(ns, F):
+        from ..sym import p_eq, p_and
+        n = F.linear.shape[1]
+        X = arr([ctx().fresh_real(f"X{j}_") for j in range(n)])
+        xs = ns["x"]
+        vin = [ns["a"][j] * X[xs.first + j] + ns["b"][j] for j in range(2)]
+        calls = ns["calls"]
+        kind = ns["kind"]
+        terms = []
+        if kind.startswith("pnorm") or kind.startswith("power"):
+            if len(calls) != 2:
+                return False
+            for j, (xx, rr, bb) in enumerate(calls):
+                if bb != ns["beta"] or rr.size != 2:
+                    return False
+                left = views.flat(views.val(xx.to_affine(), X))[0]
+                want = ns["k"] * vin[j] if ns["scaled"] else vin[j]
+                terms.append(p_eq(left, want))
+                _single_col(rr[0], "right0"), _single_col(rr[1], "right1")
+            if kind.startswith("pnorm"):
+                # one shared second operand (the norm bound), a separate first operand per component
+                c2 = {_single_col(rr[1], "r") for _, rr, _ in calls}
+                c1 = {_single_col(rr[0], "r") for _, rr, _ in calls}
+                if len(c2) != 1 or len(c1) != 2:
+                    return False
+        else:
+            if len(calls) != 1:
+                return False
+            xx, rr, bb = calls[0]
+            if bb != ns["beta"] or rr.size != 2:
+                return False
+            _single_col(xx.to_affine(), "gmean head")
+            rv = views.flat(views.val(rr, X))
+            terms += [p_eq(rv[0], vin[0]), p_eq(rv[1], vin[1])]
+        return p_and(*terms)
+
+    def rows(ns, F):
+        from ..sym import p_and, p_le, p_eq
+        n = F.linear.shape[1]
+        X = arr([ctx().fresh_real(f"X{j}_") for j in range(n)])
+        calls = ns["calls"]
+        kind = ns["kind"]
+        k = ns["k"]
+        tv = ns["tval"](X)
+        feas = D.feas(F, X)
+        if kind.startswith("pnorm"):
+            aux2 = X[_single_col(calls[0][1][1], "r")]
+            aux1 = [X[_single_col(rr[0], "r")] for _, rr, _ in calls]
+            # k*||in||_p <= t  is carried by   aux2 <= t   and   sum aux1 <= aux2
+            return p_implies(feas, p_and(p_le(aux2, tv), p_le(aux1[0] + aux1[1], aux2)))
+        if kind.startswith("power"):
+            t = []
+            for _, rr, _b in calls:
+                a1, a2 = X[_single_col(rr[0], "r")], X[_single_col(rr[1], "r")]
+                # k*|in|^(p/q) <= t  is carried by  aux2 == 1  and  k*aux1 <= t
+                t += [p_eq(a2, 1.0), p_le(k * a1, tv)]
+            return p_implies(feas, p_and(*t))
+        head = X[_single_col(calls[0][0].to_affine(), "head")]
+        # k*gmean(in) >= t  is carried by  t <= -k*head  (the head ranges over [-gmean, gmean])
+        return p_implies(feas, p_le(tv, -k * head))
+
+    for kind in ("pnorm3", "pnorm(5,2)", "power3", "power(5,2)", "gmean"):
+        obs, _ = check_function("rsome.socp:Model.do_math(primal)", make(kind), lambda ns: ns["F"],
+                                [post("tower-operands-are-the-scaled-argument-and-fresh-auxiliaries-with-documented-weights", operands),
+                                 post("linear-rows-tie-the-tower-to-the-constraint-as-written", rows)],
+                                mode="D", label=kind, bounded=True, max_paths=200)
+        out += obs
+    return out
+
+
 def run_job(job):
     k = job["kind"]
     if k == "constr":
@@ -275,4 +399,6 @@ def run_job(job):
         return out
     if k == "tower_atoms":
         return tower_atoms()
+    if k == "tower_callsites":
+        return tower_callsites()
     raise ValueError(k)
